@@ -379,7 +379,7 @@ Section Assertion.
     issuer_check as_coded root a
     = negb (negb (is_empty (issuer_text root)) && negb (String.eqb (issuer_text root) (issuer_text a))).
   Proof.
-    unfold issuer_check. cbn [k_issuer as_coded negb orb]. unfold issuer_text_ok in root_ok.
+    unfold issuer_check. cbn [k_issuer k_isseq as_coded negb orb]. unfold issuer_text_ok in root_ok.
     destruct (single ISSUER root) as [i|] eqn:Ei.
     - destruct root_ok as [Hne _]. rewrite Hne. cbn [negb andb].
       destruct (is_empty (issuer_text root)), (String.eqb (issuer_text root) (issuer_text a)); reflexivity.
